@@ -25,6 +25,8 @@ St0 == [G |-> EmptyDs, made |-> {}, its |-> <<>>, lg |-> Unset]
 Has(r, f) == f \in DOMAIN r
 Tup3(q) == <<q[1], q[2], q[3]>>
 
+SP == INSTANCE SparqlPaths
+
 (* ---------------- state transformer (the action's post-state) ----------- *)
 Refresh(I, G, G2) == [i \in DOMAIN I |->
                     IF I[i].live
@@ -132,6 +134,10 @@ ObsVerdict(s, c, o) ==
             SeqToSet(o.quadq[i].r) # (IF "KF_C02_quads_graph_pattern" \in Devs THEN QuadPatDev(G, c, o.quadq[i].g, o.quadq[i].p) ELSE QuadPat(G, c, o.quadq[i].g, o.quadq[i].p)) THEN "QuadPattern"
   ELSE IF Has(o, "gof") /\ \E i \in 1..Len(o.gof) : SeqToSet(o.gof[i].r) # GraphsOf(G, Tup3(o.gof[i].t)) THEN "GraphsOfTriple"
   ELSE IF Has(o, "ulen") /\ o.ulen # Cardinality(GUnion(G)) THEN "LenAgrees"
+  \* a pattern whose predicate is a property path, asked of the dataset itself: the relation the path denotes (SparqlPaths.tla) over the
+  \* same view a plain predicate is matched against - the union when default_union, the default graph otherwise; asked of a view: over that graph
+  ELSE IF Has(o, "upath") /\ \E i \in 1..Len(o.upath) :
+            SeqToSet(o.upath[i].r) # SP!PathAnswer(o.upath[i].path, DView(G, c, o.upath[i].g), {}, {}) THEN "PathOverView"
   ELSE "ok"
 
 (* C13: a read leaves everything as it was, and repeated reads agree *)
